@@ -130,8 +130,11 @@ def _requestor(case):
                     msg.priority = 0
                     if (i + case['seed']) % 2:
                         # data set handed over as a file object positioned behind a header
-                        world.fs.put('/src/q%d' % i, b'HDR!' + b'Q' * n)
-                        fp = world.fs.open('/src/q%d' % i, 'rb')
+                        # every other file source behaves like a raw stream (short reads)
+                        d_ = 'raw' if (i + case['seed']) % 4 == 1 else 'src'
+                        world.fs.short_read_prefix = '/raw/'
+                        world.fs.put('/%s/q%d' % (d_, i), b'HDR!' + b'Q' * n)
+                        fp = world.fs.open('/%s/q%d' % (d_, i), 'rb')
                         fp.seek(4)
                         msg.data_set = fp
                     else:
